@@ -629,6 +629,8 @@ def storeInsert (fuel : Nat) (here : Path) (ins : Val) : FM Report := do
   applySubschemaPath fuel here rel
   let tgt ← getPath here rel
   modify tgt (fun n => .ok (applyDefaults n))
+  -- variables that only the sub-schema declares exist now: `target.set_value(insertion['initial_state'])`
+  modify tgt (fun n => setValue n initialState)
   pure { topology := tps, processes := prs, steps := sts, flow := fls, viewExpire := true }
 
 /-- `deep_merge(daughter_state, daughter.get('initial_state', {}))` -/
